@@ -63,17 +63,18 @@ let () =
   let kind = ref "" in
   (* ---- state of the current tensor case: model with and without the repair ---- *)
   let npts = ref (fun (_ : z) -> Z0) and maxlevel = ref O in
-  let gs_fix : string gstate option ref = ref None and gs_asis : string gstate option ref = ref None in
-  let ok_fix = ref true and ok_asis = ref true and gpend = ref false and gcandimpl : idx list option ref = ref None in
+  (* four variants of the tensor model: (eject_on_missing, keep_sampled) = TT (both repairs), TF, FT, FF (the code as it stands) *)
+  let variants = [| (true, true); (true, false); (false, true); (false, false) |] and vnames = [| "TT"; "TF"; "FT"; "FF" |] in
+  let gs : string gstate option array = Array.make 4 None and gok = Array.make 4 true in
+  let gpend = ref false and gcandimpl : idx list option ref = ref None in
   let flush () =
     if !id <> "" then begin
       (match !kind, !bad with
        | "con", None -> Printf.printf "ok %s steps=%d\n" !id !steps
        | "con", Some w -> Printf.printf "MISMATCH %s %s\n" !id w
        | "gcon", _ ->
-         if !ok_fix && !ok_asis then Printf.printf "ok %s steps=%d mode=both\n" !id !steps
-         else if !ok_fix then Printf.printf "ok %s steps=%d mode=repaired\n" !id !steps
-         else if !ok_asis then Printf.printf "ok %s steps=%d mode=asis\n" !id !steps
+         let agree = List.filter (fun k -> gok.(k)) [0; 1; 2; 3] in
+         if agree <> [] then Printf.printf "ok %s steps=%d mode=%s\n" !id !steps (String.concat "," (List.map (fun k -> vnames.(k)) agree))
          else Printf.printf "MISMATCH %s %s\n" !id (match !bad with Some w -> w | None -> "tensor model")
        | _, _ -> ());
       id := ""
@@ -124,8 +125,8 @@ let () =
              note (Printf.sprintf "candidates: model {%s} impl {%s}" (show_idx (canon_idx model)) (show_idx (canon_idx impl)))
          | None -> ())
       | "gcon" :: i :: dd :: rest ->
-        flush (); id := i; kind := "gcon"; d := int_of_string dd; steps := 0; bad := None; gs_fix := None; gs_asis := None;
-        ok_fix := true; ok_asis := true; gpend := false; gcandimpl := None;
+        flush (); id := i; kind := "gcon"; d := int_of_string dd; steps := 0; bad := None;
+        Array.fill gs 0 4 None; Array.fill gok 0 4 true; gpend := false; gcandimpl := None;
         let tbl = Array.of_list (List.map int_of_string (get "npts:" (keyed rest))) in
         npts := (fun l -> let k = int_of_z l in if k < 0 then Z0 else if k < Array.length tbl then z_of_int tbl.(k) else z_of_int 1000000000);
         maxlevel := nat_of_int (Array.length tbl)
@@ -142,23 +143,26 @@ let () =
             (show_idx (canon_idx (List.map fst s.gdata))) (show_idx (canon_idx (s.ginit @ s.greg))) in
         if !gpend then begin
           incr steps;
-          (match !gs_fix with Some s -> if not (same s) then begin
-               if !ok_fix then note (Printf.sprintf "step %d repaired-model %s impl %s" !steps (descr s) (descr impl));
-               ok_fix := false end | None -> ());
-          (match !gs_asis with Some s -> if not (same s) then ok_asis := false | None -> ())
+          Array.iteri (fun k st_k -> match st_k with
+              | Some sk -> if not (same sk) then begin
+                  if k = 0 && gok.(0) then note (Printf.sprintf "step %d repaired-model %s impl %s" !steps (descr sk) (descr impl));
+                  gok.(k) <- false end
+              | None -> ()) gs
         end;
-        gs_fix := Some impl; gs_asis := Some impl; gpend := false; gcandimpl := None
+        Array.fill gs 0 4 (Some impl); gpend := false; gcandimpl := None
       | "gdel" :: rest when !kind = "gcon" && !id <> "" ->
         let m = keyed rest in
         let batch = samples !d (get "idx:" m) (get "vals:" m) in
-        (match !gs_fix with Some s -> gs_fix := Some (g_step !npts !maxlevel true s (GDeliver batch)) | None -> ());
-        (match !gs_asis with Some s -> gs_asis := Some (g_step !npts !maxlevel false s (GDeliver batch)) | None -> ());
+        Array.iteri (fun k st_k -> match st_k with
+            | Some sk -> let (e, kp) = variants.(k) in gs.(k) <- Some (g_step !npts !maxlevel e kp sk (GDeliver batch))
+            | None -> ()) gs;
         gpend := true
       | "gcand" :: rest when !kind = "gcon" && !id <> "" ->
         let m = keyed rest in
         let limits = List.map (fun t -> z_of_int (int_of_string t)) (get "limits:" m) in
-        (match !gs_fix with Some s -> gs_fix := Some (g_step !npts !maxlevel true s (GCand limits)) | None -> ());
-        (match !gs_asis with Some s -> gs_asis := Some (g_step !npts !maxlevel false s (GCand limits)) | None -> ());
+        Array.iteri (fun k st_k -> match st_k with
+            | Some sk -> let (e, kp) = variants.(k) in gs.(k) <- Some (g_step !npts !maxlevel e kp sk (GCand limits))
+            | None -> ()) gs;
         gcandimpl := Some (idxs !d (get "impl:" m)); gpend := true
       | "pc" :: i :: rule :: dd :: rest ->
         flush ();
